@@ -372,7 +372,8 @@ func (self *VM) HandleTermination(
 	var returnValue value.Value
 
 	switch invocation.FunctionSignature.ReturnType.Kind() {
-	case ast.NullTypeKind, ast.NeverTypeKind, ast.UnknownTypeKind, ast.AnyObjectTypeKind:
+	case ast.NullTypeKind, ast.NeverTypeKind, ast.UnknownTypeKind:
+		// (an any-object `{ ? }` is a value like any other: the host gets it)
 		break
 	default:
 		// Get function return value.
